@@ -203,6 +203,8 @@ def build():
     cs.rewrite_re('R5', r'for j in 1\.\.k \{', 'let mut j = 1usize; while j < k {')
     cs.rewrite_re('R5', r'(contiguous = false;\s*break;\s*\})\s*\}', r'\1 j = j + 1; }')
     unfind_rev(cs)
+    cs.rewrite_re('R11', r'(\b\w+(?:\.len\(\))?)\.is_power_of_two\(\)', r'usize_is_pow2_(\1)', min_count=0)
+    cs.rewrite_re('R6', r'(\w+)\.splice\(0\.\.0, core::iter::repeat_n\(([^,()]+), (\w+)\)\);', r'vec_prepend_repeat_(&mut \1, \2, \3);', min_count=0)
     cs.rewrite_re('R11', r'Self::horner_ops_share_b_idx\(', 'horner_ops_share_b_idx(')
     cs.rewrite_re('R6', r'&chain\[i\.\.i \+ k\]', 'chain, i, k')
     cs.rewrite_re('R6', r'&chain\[(\w+)\.\.(\w+)\]', r'chain, \1, \2 - \1')
@@ -242,6 +244,10 @@ def stage2(u, cs, fr, A, IMPL):
 pub fn any_true(v: &Vec<bool>) -> (r: bool) ensures r == exists|i: int| 0 <= i < v@.len() && v@[i] { unimplemented!() }
 pub fn sat_sub(a: usize, b: usize) -> (r: usize) ensures r == (if a >= b { a - b } else { 0 }) { if a >= b { a - b } else { 0 } }
 pub fn min_(a: usize, b: usize) -> (r: usize) ensures r == (if a <= b { a as int } else { b as int }) { if a <= b { a } else { b } }
+/// usize::is_power_of_two (R11) and `v.splice(0..0, core::iter::repeat_n(x, n))` = n copies of x put in front (R6)
+pub uninterp spec fn sp_is_pow2(n: usize) -> bool;
+#[verifier::external_body] pub fn usize_is_pow2_(n: usize) -> (r: bool) ensures r == sp_is_pow2(n) { unimplemented!() }
+#[verifier::external_body] pub fn vec_prepend_repeat_<T: Copy>(v: &mut Vec<T>, x: T, n: usize) ensures final(v)@ == Seq::new(n as nat, |i: int| x) + old(v)@ { unimplemented!() }
 }""")
     u.fill_fn = fl
     return stage3(u, cs, A, IMPL)
